@@ -160,6 +160,15 @@ class PGen:
                                         {'k': 'pred', 'id': self.fresh(), 'fn': 'is_pos'},
                                         self.pattern(depth - 1, hashable)]))
             r.shuffle(cs)
+            if r.random() < 0.3:
+                # a child that is not the last one and yields something other than the target (a nested
+                # Match / Or / And falling back on its default): every child still sees the ORIGINAL target
+                inner = r.choice([
+                    {'k': 'match', 's': self.pattern(min(depth - 1, 1)), 'd': {'c': jv(r.choice(['inner', 0, -7]))}},
+                    {'k': 'or', 'cs': [self.pattern(min(depth - 1, 1), hashable)], 'd': {'c': jv(r.choice([None, 'alt', 3]))}},
+                    {'k': 'and', 'cs': [{'k': 'ty', 'n': r.choice(['int', 'str', 'dict'])}], 'd': {'c': jv(r.choice(['dflt', 1]))}}])
+                if not hashable or hashable_spec(inner):
+                    cs.insert(r.randrange(len(cs)), inner)
             d = r.choice([None, None, None, None, {'c': jv('dflt')}])
             return {'k': 'and', 'cs': cs, 'd': d}
         if k == 'or':
